@@ -3,21 +3,17 @@ import MythVerif.Proofs.WsQueueTsoTac
 namespace MythVerif.WsqTso
 open MythVerif.Wsq
 
-set_option maxHeartbeats 4000000 in
 theorem t_tp2 (s s' : St) (p : Pid) (e b) : Inv s → s.tpc p = .tp2 e b → stepT s p = some s' → Inv s' := by
   intro h heq hs
   have hb := h.tbufE p (by simp [heq, mayBuf])
-  cases h
   simp only [stepT, heq, hb] at hs
   simp at hs; subst hs
-  simp only [ownerLocked, carry, resetting, ownerFlight] at *
-  tso_finish
+  tso_fastT h p [tp2]
 
 theorem pu2_viewBase (buf : List Sto) (ptr : Int → Option Elem) (e : Elem) (t base : Int)
     (h : Pu2Shape buf ptr e t) : viewBase buf base = base := by
   rcases h with ⟨h1, _⟩ | h1 <;> simp [h1, viewBase]
 
-set_option maxHeartbeats 4000000 in
 theorem t_tp3 (s s' : St) (p : Pid) (e) : Inv s → s.tpc p = .tp3 e → stepT s p = some s' → Inv s' := by
   intro h heq hs
   have hsh := h.tp3 p e heq
@@ -27,10 +23,10 @@ theorem t_tp3 (s s' : St) (p : Pid) (e) : Inv s → s.tpc p = .tp3 e → stepT s
   have htr := h.trF p hl (by simp [heq, notTrans])
   have hbase : s.base = s.lb := by have := h.lbase hnr; simpa [htr] using this
   have htp4 := h.tp4
-  cases h
   simp only [stepT, heq, hv] at hs
   simp at hs; subst hs
   simp only [ownerLocked, carry, resetting, ownerFlight] at *
+  tso_coreT h [tp3]
   constructor
   all_goals (try simp only [ownerLocked, carry, resetting, ownerFlight, upd_apply, applySto])
   case tp4 =>
@@ -42,20 +38,17 @@ theorem t_tp3 (s s' : St) (p : Pid) (e) : Inv s → s.tpc p = .tp3 e → stepT s
       · exact Or.inl ⟨e, by simp [h1, hbase]⟩
     · simp only [hqp, if_false] at hq ⊢
       exact htp4 q ok hq
-  tso_rest
+  tso_goalsT h p
 
-set_option maxHeartbeats 4000000 in
 theorem t_tp4 (s s' : St) (p : Pid) (ok) : Inv s → s.tpc p = .tp4 ok → stepT s p = some s' → Inv s' := by
   intro h heq hs
   have hcfg := h.cfg
-  cases h
   simp only [stepT, heq, releaseT, hcfg, code_unlockFence, if_true] at hs
   split at hs
   · rename_i hb
     simp at hb
     simp at hs; subst hs
-    simp only [ownerLocked, carry, resetting, ownerFlight] at *
-    tso_finish
+    tso_fastT h p [tp4]
   · simp at hs
 
 end MythVerif.WsqTso
